@@ -485,6 +485,16 @@ func (c *Client) completeCommand(cmd command, err error) {
 				PermanentFlags: cmd.data.PermanentFlags,
 			}
 			c.mutex.Unlock()
+		} else if imapErr, ok := err.(*imap.Error); ok && imapErr.Type == imap.StatusResponseTypeNo {
+			// A SELECT which fails leaves no mailbox selected, even if one
+			// was selected before (servers don't always announce this with
+			// an untagged OK [CLOSED])
+			c.mutex.Lock()
+			if c.state == imap.ConnStateSelected {
+				c.state = imap.ConnStateAuthenticated
+				c.mailbox = nil
+			}
+			c.mutex.Unlock()
 		}
 	case *unselectCommand:
 		if err == nil {
